@@ -50,3 +50,30 @@ Print Assumptions C06_window_wrap_high_refuted.
 Example C06_boundary : fst (dec_time cf_std 5000 300 5300) = TOk /\ fst (dec_time cf_std 5000 300 5301) = TExpired
   /\ fst (dec_time cf_std 5000 300 4700) = TOk /\ fst (dec_time cf_std 5000 300 4699) = TRewound.
 Proof. vm_compute. repeat split; reflexivity. Qed.
+
+(* TRANSLATOR TIE: the decision function the theorems above are about IS dec.c's dec_validate_time, and the encode-side
+   defaulting/capping of the TTL IS enc.c's enc_validate_msg, as translated from the C text on every run
+   (tools/facts/cfun.py -> gen/GenCredFun.v; C integer types made explicit: uint32 wrap, conversion to int, 64-bit
+   time_t).  A swapped pair of statements, a dropped cast, another member or operator changes the translation and breaks
+   these equalities. *)
+From RecordUpdate Require Import RecordSet.
+From MV Require Import CredFun.
+From MV.gen Require Import GenCredFun.
+Import RecordSetNotations.
+
+Theorem C06_time_check_is_the_source : forall (cf : conf) (m : msg),
+  cf_max_ttl cf < 2147483648 -> m_ttl m < 4294967296 ->
+  let r := dec_time cf (m_time0 m) (m_ttl m) (m_time1 m) in
+  src_dec_validate_time cf m = (tcode (fst r), m <| m_ttl := snd r |>).
+Proof. exact dec_time_is_source. Qed.
+Print Assumptions C06_time_check_is_the_source.
+
+Theorem C06_enc_validate_is_the_source : forall (cf : conf) (m : msg),
+  cf_def_cipher cf < 256 -> cf_def_mac cf < 256 -> cf_def_zip cf < 256 ->
+  cf_def_ttl cf < 4294967296 -> cf_max_ttl cf < 4294967296 -> m_err m = e_success ->
+  match enc_validate cf m with
+  | inl m' => src_enc_validate_msg cf m = (0, m')
+  | inr e => fst (src_enc_validate_msg cf m) = m_err e
+  end.
+Proof. exact enc_validate_is_source. Qed.
+Print Assumptions C06_enc_validate_is_the_source.
